@@ -690,10 +690,46 @@ public:
             }
             case jsoncons::cbor::detail::cbor_major_type::negative_integer:
             {
-                int64_t val = read_int64(ec);
-                if (JSONCONS_UNLIKELY(ec))
+                int64_t val = 0;
+                if (info == 0x1b)
                 {
-                    return;
+                    uint64_t n = read_uint64(ec); // the item denotes -1 - n
+                    if (JSONCONS_UNLIKELY(ec))
+                    {
+                        return;
+                    }
+                    if (n > static_cast<uint64_t>((std::numeric_limits<int64_t>::max)()))
+                    {
+                        // below the int64 range, report the exact value as a big integer
+                        // (text_buffer_ outlives this call, a pull cursor keeps a view of the string)
+                        text_buffer_.clear();
+                        text_buffer_.push_back('-');
+                        if (n == (std::numeric_limits<uint64_t>::max)())
+                        {
+                            text_buffer_.append("18446744073709551616");
+                        }
+                        else
+                        {
+                            jsoncons::from_integer(n + 1, text_buffer_);
+                        }
+                        other_tags_[item_tag] = false;
+                        visitor.string_value(text_buffer_, semantic_tag::bigint, *this, ec);
+                        if (JSONCONS_UNLIKELY(ec))
+                        {
+                            return;
+                        }
+                        more_ = !cursor_mode_;
+                        break;
+                    }
+                    val = static_cast<int64_t>(-1) - static_cast<int64_t>(n);
+                }
+                else
+                {
+                    val = read_int64(ec);
+                    if (JSONCONS_UNLIKELY(ec))
+                    {
+                        return;
+                    }
                 }
                 semantic_tag tag = semantic_tag::none;
                 if (other_tags_[item_tag])
